@@ -106,6 +106,7 @@ def run_spec(spec: dict, keep_events: bool = False, watchdog_s: float | None = N
     run.actors.clear()
     run.shared_callbacks.clear()
     run.fjit = None
+    run.jarg = None
     run.shared_options = None
     run.tasks.clear()
     return result
